@@ -139,7 +139,7 @@ def _names_unique(m):
 def _nontrivial(s1):
     for c in G.META_CATS:
         for v in s1[c]:
-            if v["shape"] != [1, 1] or v["aliases"] or any(v[a]["kind"] == "MX" for a in G.ATTRS):
+            if v["shape"] != [1, 1] or v["aliases"] or any(v[a]["_kind"] == "MX" for a in G.ATTRS):
                 return True
     return bool(s1["delay_states"])
 
